@@ -88,6 +88,8 @@ type Executor struct {
 	initSkip func(fn *ssa.Function) bool
 	Params   map[string]int
 	ShardBits, ShardID int
+	eo         *eoCtx
+	reachCache map[*ssa.BasicBlock]map[int]bool
 }
 
 func NewExecutor(prog *ssa.Program, solver *smt.Session) *Executor {
